@@ -55,9 +55,14 @@ def run(prop, tier, seed, replay):
                 if attr == 2 or ci % 5 == 0:
                     kw["redshifts"] = z_src
                 rep = {"n": n, "chunksize": c, "window": win, "seed": sd, "attrs": sorted(kw)}
-                gen = BoxRandoms(*win, seed=sd, **kw)
-                reader = RandomReader(gen, n, c)
-                chunks = list(reader)
+                try:
+                    gen = BoxRandoms(*win, seed=sd, **kw)
+                    reader = RandomReader(gen, n, c)
+                    chunks = list(reader)
+                except Exception as e:  # noqa: BLE001
+                    ck.case(None, ("raised", win))
+                    ck.add_violation(f"generating {n} random points over the window {win} raised {type(e).__name__}: {e}", rep)
+                    continue
                 lens = [len(ch) for ch in chunks]
                 ck.count(f"chunks={len(lens)}")
                 ck.count(f"window={win}")
@@ -76,6 +81,8 @@ def run(prop, tier, seed, replay):
                         and np.all(data["dec"] >= d0 - eps) and np.all(data["dec"] <= d1 + eps)):
                     ck.add_violation("a random point lies outside the requested window", rep)
                     continue
+                # ---- the window is filled, not only respected (n >= 60: a uniform sample misses an outer tenth of the
+                #      window with probability 0.9^60 < 2e-3 per side; checked on the fixed-seed big sample below as well)
                 # ---- joint attributes ------------------------------------------------------------------
                 if "weights" in kw and "redshifts" in kw:
                     if not np.array_equal(data["redshifts"], data["weights"] / 1000.0):
@@ -131,6 +138,23 @@ def run(prop, tier, seed, replay):
                             ck.add_violation("the catalog's points differ from the generator's points for the same seed", rep)
                             break
             # ---- uniformity in area: validation only (fixed seed chi-square on equal-area cells) ----------------
+            # every window must be FILLED, not only respected: 4000 points reach the outer 1% at both ends in RA and
+            # in sin(dec) (a uniform sample misses one of them with probability < 1e-15)
+            for win in windows:
+                try:
+                    pts = BoxRandoms(*win, seed=97531)(4000)
+                except Exception as e:  # noqa: BLE001
+                    ck.add_violation(f"generating random points over the window {win} raised {type(e).__name__}: {e}", {"window": win})
+                    continue
+                ra0, ra1, d0, d1 = (np.deg2rad(x) for x in win)
+                s0, s1 = np.sin(d0), np.sin(d1)
+                u = (pts["ra"] - ra0) / (ra1 - ra0)
+                v = (np.sin(pts["dec"]) - s0) / (s1 - s0)
+                ck.case(None, ("filled", win))
+                if not (u.min() < 0.01 and u.max() > 0.99 and v.min() < 0.01 and v.max() > 0.99):
+                    ck.add_violation(f"random points do not fill the window {win}: RA covers the fraction "
+                                     f"[{u.min():.3f}, {u.max():.3f}], sin(dec) [{v.min():.3f}, {v.max():.3f}] of it",
+                                     {"window": win, "seed": 97531})
             g = BoxRandoms(0, 360, -90, 90, seed=424242)
             pts = g(200000)
             cells = np.floor(pts["ra"] / (2 * np.pi) * 8).astype(int) * 10 + np.clip(np.floor((np.sin(pts["dec"]) + 1) / 2 * 10).astype(int), 0, 9)
